@@ -9,12 +9,9 @@ for ID in "$@"; do
   [ -f $P ] || { echo "$ID: no patch"; continue; }
   git -C /repo diff --quiet || { echo "/repo is dirty, refusing"; exit 2; }
   git -C /repo apply $P || { echo "$ID: patch does not apply"; continue; }
-  HIT=""; STUCK=""
-  for pr in $PROPS; do
-    out=$(bin/dtcheck -property $pr -tier quick -verif /tmp/seedrun-verif 2>&1); rc=$?
-    if echo "$out" | grep -q '^VIOLATION'; then HIT="$HIT $pr:$(echo "$out" | grep -oE '\[C[0-9]+\.[0-9a-z]+' | sort -u | tr -d '[' | tr '\n' ',')"; elif [ $rc -ne 0 ]; then STUCK="$STUCK $pr"; fi
-  done
-  git -C /repo checkout -- .
+  RES=$(for pr in $PROPS; do echo $pr; done | xargs -P 6 -I{} bash -c 'out=$(/verif/bin/dtcheck -property {} -tier quick -verif /tmp/seedrun-verif 2>&1); rc=$?; if echo "$out" | grep -q "^VIOLATION"; then echo "HIT {}:$(echo "$out" | grep -oE "\[C[0-9]+\.[0-9a-z]+" | sort -u | tr -d "[" | tr "\n" ",")"; elif [ $rc -ne 0 ]; then echo "STUCK {}"; fi' | sort)
+  HIT=$(echo "$RES" | grep '^HIT ' | cut -d' ' -f2 | tr '\n' ' '); STUCK=$(echo "$RES" | grep '^STUCK ' | cut -d' ' -f2 | tr '\n' ' ')
+  git -C /repo apply -R $P || git -C /repo checkout -- .
   echo "$ID detected_by:[$HIT ] stuck:[$STUCK ]"
   python3 - "$ID" "$HIT" "$STUCK" <<'PY'
 import json,sys
